@@ -4,6 +4,7 @@
  * each sequence every matrix is freed and the allocation ledger must be empty. */
 #include "common.h"
 #include "ledger.h"
+#include "arena.h"
 #include "of_openfec_api.h"
 #include "linear_binary_codes_utils/of_linear_binary_code.h"
 
@@ -127,13 +128,17 @@ static void index_array(rng_t *r, UINT32 *idx, int n, int src)
 		if (mode == 4) idx[a] = idx[b]; else { UINT32 t = idx[a]; idx[a] = idx[b]; idx[b] = t; }
 	}
 }
+/* the insertion-hint table of copyrows_opt is an IN parameter: one zeroed, read-only table per sequence, handed to every call */
+static of_mod2entry **g_hint;
 static void m_copyrows(int a, int b, rng_t *r, int opt)
 {	/* needs cols(b) >= cols(a); opt variant needs an empty destination */
 	smat_t *A = &g_m[a], *B = &g_m[b]; UINT32 rows[MAXD];
 	index_array(r, rows, B->R, A->R);
 	if (opt) { for (int i = 1; i < B->R; i++) if (rows[i] < rows[i - 1]) { } }
 	g_lastop = opt ? "copyrows_opt" : "copyrows";
-	LIB_ENTER(); if (opt) of_mod2sparse_copyrows_opt(A->m, B->m, rows, NULL); else of_mod2sparse_copyrows(A->m, B->m, rows); LIB_LEAVE();
+	int hinted = opt && g_hint && rng_below(r, 2);
+	LIB_ENTER(); if (opt) of_mod2sparse_copyrows_opt(A->m, B->m, rows, hinted ? g_hint : NULL); else of_mod2sparse_copyrows(A->m, B->m, rows); LIB_LEAVE();
+	if (hinted) { rep_count("copyrows_opt_calls_with_a_caller_hint_table", 1); if (ar_check(g_hint)) vio("model", "the caller's IN-only hint table was modified by copyrows_opt"); }
 	memset(B->M, 0, sizeof B->M);
 	for (int i = 0; i < B->R; i++) memcpy(B->M[i], A->M[rows[i]], (size_t)A->C);
 	g_ops++;
@@ -330,6 +335,7 @@ static void random_sequence(rng_t *r, int len, int maxdim, int dense_fill)
 {
 	int longlived = dense_fill == 2;    /* rare bulk operations, so that a cleared matrix is refilled beyond one block */
 	led_reset(); g_led_bad_free = 0;
+	g_hint = ar_alloc((MAXD + 8) * sizeof *g_hint, 0, AR_PTRTAB, 17); memset(g_hint, 0, (MAXD + 8) * sizeof *g_hint); ar_ro(g_hint);
 	int R = 1 + (int)rng_below(r, (uint32_t)maxdim), C = 1 + (int)rng_below(r, (uint32_t)maxdim);
 	/* b and c are at least as large as a so that every copy precondition can be met */
 	m_alloc(0, R, C);
@@ -357,6 +363,8 @@ static void random_sequence(rng_t *r, int len, int maxdim, int dense_fill)
 		if (g_viol_total == viol0 && (len <= 1000 || (step & 15) == 0 || step == len - 1)) check(&g_m[k], (step % (len > 1000 ? 400 : 7)) == 0 || step == len - 1);
 	}
 	if (g_viol_total == viol0) for (int k = 0; k < NMAT; k++) { g_lastop = "final-check"; check(&g_m[k], 1); }
+	if (ar_check(g_hint)) { g_lastop = "copyrows_opt"; vio("model", "the caller's IN-only hint table was modified"); }
+	ar_free(g_hint); g_hint = NULL;
 	end_sequence();
 }
 
